@@ -103,13 +103,13 @@ func (g *Gen) binop(op token.Token, a, b Val, ot, rt types.Type, st *State) Val 
 	case KPtr, KSlice, KRef, KIface, KStruct, KUnit, KArray:
 		switch op {
 		case token.EQL:
-			if a.S.K == KSlice {
-				// only comparison with nil is legal
+			if a.S.K == KSlice && (a.T == g.nilSlice() || b.T == g.nilSlice()) {
+				// Go only allows comparison with nil; specs may also compare slice headers
 				return Val{T: g.sliceIsNil(a, b), S: sBool, G: rt}
 			}
 			return Val{T: sEq(a.T, b.T), S: sBool, G: rt}
 		case token.NEQ:
-			if a.S.K == KSlice {
+			if a.S.K == KSlice && (a.T == g.nilSlice() || b.T == g.nilSlice()) {
 				return Val{T: sNot(g.sliceIsNil(a, b)), S: sBool, G: rt}
 			}
 			return Val{T: sNot(sEq(a.T, b.T)), S: sBool, G: rt}
